@@ -1,6 +1,7 @@
 import MemcVerif.Model.Handler
 import MemcVerif.Generated.Tables
 import MemcVerif.Model.Skip
+import MemcVerif.Model.Conn
 /-!
 # The model's tables are the source's tables
 
@@ -65,6 +66,22 @@ theorem tie_limits :
 
 theorem tie_skip_buf :
     Holds Gen.skipBuf (fun n => n = SKIP_BUF) := by decide
+
+/-- does a size test written with operator `op` (0 `>`, 1 `>=`) refuse a body of `b` bytes under limit `l`? -/
+def opRefuses (op b l : Nat) : Bool := if op = 0 then decide (b > l) else if op = 1 then decide (b ≥ l) else false
+
+/-- does the model's decoder refuse (hand out 'too large' for) a header announcing `b` bytes under limit `l`? -/
+def modelRefuses (b l : Nat) : Bool :=
+  match (Codec.afterHeader l { hdr0 with bodyLen := b } []).1 with
+  | .frame (.tooLarge _) => true
+  | _ => false
+
+/-- every comparison of the announced body length with the item size limit in the codec's source is the model's: at the
+    limit itself, one byte below and one byte above, for a small and a large limit -/
+theorem tie_size_tests :
+    Holds Gen.sizeTests (fun ops => ops.all (fun op =>
+      [1024, 1048576].all (fun l => [l - 1, l, l + 1].all (fun b => opRefuses op b l == modelRefuses b l))) = true) := by
+  decide
 
 theorem tie_version :
     Holds Gen.version (fun v => v = VERSION) := by decide
